@@ -10,11 +10,11 @@ import (
 // CoffCase serves C08 (structural validity) and C09 (same code, right symbols).
 type CoffCase struct {
 	Prop    string            `json:"prop"`
-	P       Prog              `json:"prog"`     // body (32-bit code with labels L<i>)
-	Rename  map[string]string `json:"rename"`   // label -> exported name
-	Globals [][]string        `json:"globals"`  // GLOBAL statements (names after renaming), in order
-	GPos    []int             `json:"gpos"`     // statement index in P.Stmts before which each GLOBAL statement goes (-1 = header)
-	File    *string           `json:"file"`     // [FILE] name, nil = no directive
+	P       Prog              `json:"prog"`    // body (32-bit code with labels L<i>)
+	Rename  map[string]string `json:"rename"`  // label -> exported name
+	Globals [][]string        `json:"globals"` // GLOBAL statements (names after renaming), in order
+	GPos    []int             `json:"gpos"`    // statement index in P.Stmts before which each GLOBAL statement goes (-1 = header)
+	File    *string           `json:"file"`    // [FILE] name, nil = no directive
 	Cell_   string            `json:"cell"`
 }
 
